@@ -233,6 +233,7 @@ type c06SharedResult struct {
 	PointNames     map[string]int
 	ChangedGlobals []string
 	Stuck          int
+	ZoneRuns       int
 	Violation      *engine.Violation
 	Path           []string
 }
@@ -270,7 +271,14 @@ func c06RunShared(tier string) c06SharedResult {
 	inB.NextBlock(5)
 	pres = append(pres, inB.Snapshot())
 	preNames = append(preNames, "a transfer pending")
-	ops := []engine.Op{engine.OpN("Send", "ethereum", "hub"), engine.OpN("Dep", "ethereum"), engine.OpN("Next"), engine.OpN("NextLong"), engine.OpN("Send", "minter", "hub")}
+	// ... and one block later (automatic batching runs at even heights, the expiry sweep only finds unbatched transfers)
+	inB.NextBlock(5)
+	c.apply(inB, g0, engine.OpN("Send", "minter", "eth"))
+	pres = append(pres, inB.Snapshot())
+	preNames = append(preNames, "one transfer in a batch, one sent in the open even-height block")
+	ops := []engine.Op{engine.OpN("Send", "ethereum", "hub"), engine.OpN("Dep", "ethereum"), engine.OpN("Next"), engine.OpN("NextLong"), engine.OpN("Send", "minter", "hub"),
+		// the block that starts after the transfer timeout, executed to its end (the expiry sweep runs in its EndBlocker)
+		engine.OpN("NextLongThenNext")}
 	type query struct {
 		name string
 		run  func(in *hub.Instance) string
@@ -290,6 +298,34 @@ func c06RunShared(tier string) c06SharedResult {
 			return fmt.Sprint(r.OK(), c06Digest(in))
 		}},
 	}
+	// the process environment: the same block step in a process whose local time zone is UTC and in one three hours east
+	// of it (time.Unix, Time.Local, Time.Format and Time.String read time.Local implicitly)
+	saved := time.Local
+	for pi, pre := range pres {
+		for _, op := range ops {
+			var digests []string
+			for _, zone := range []*time.Location{time.UTC, time.FixedZone("east", 3*3600), time.FixedZone("west", -5*3600-1800)} {
+				time.Local = zone
+				inB.Restore(pre)
+				inB.Events = nil
+				if c06ApplySeq(c, inB, &c06Ghost{Ev: map[string]uint64{"ethereum": 0}}, op) {
+					break
+				}
+				digests = append(digests, c06Digest(inB))
+				res.ZoneRuns++
+			}
+			time.Local = saved
+			for _, d := range digests {
+				if d != digests[0] && res.Violation == nil {
+					res.Violation = &engine.Violation{Property: "C06", Rule: "nondeterministic_result_depends_on_the_process_time_zone", Site: op.Kind,
+						Detail: fmt.Sprintf("pre-state %q, block step %s: state and events digest %s with local time zone UTC, %s with another zone", preNames[pi], op, digests[0], d)}
+				}
+			}
+		}
+	}
+	if res.Violation != nil {
+		goto out
+	}
 	for pi, pre := range pres {
 		for _, op := range ops {
 			for _, q := range queries {
@@ -298,7 +334,7 @@ func c06RunShared(tier string) c06SharedResult {
 				inB.Restore(pre)
 				inB.Events = nil
 				gB := &c06Ghost{Ev: map[string]uint64{"ethereum": 0}}
-				if c.apply(inB, gB, op) {
+				if c06ApplySeq(c, inB, gB, op) {
 					continue
 				}
 				refB := c06Digest(inB)
@@ -313,7 +349,7 @@ func c06RunShared(tier string) c06SharedResult {
 					s := &coSched{plan: plan, start: start}
 					var gotQ string
 					ok := s.run([2]func(){
-						func() { c.apply(inB, &c06Ghost{Ev: map[string]uint64{"ethereum": 0}}, op) },
+						func() { c06ApplySeq(c, inB, &c06Ghost{Ev: map[string]uint64{"ethereum": 0}}, op) },
 						func() { gotQ = q.run(inQ) },
 					})
 					res.Schedules++
@@ -411,4 +447,13 @@ func cut(s string, n int) string {
 		return s[:n] + "..."
 	}
 	return s
+}
+
+
+// c06ApplySeq: the block steps of this phase; one of them is two operations long.
+func c06ApplySeq(c *C06, in *hub.Instance, g *c06Ghost, op engine.Op) bool {
+	if op.Kind == "NextLongThenNext" {
+		return c.apply(in, g, engine.OpN("NextLong")) || c.apply(in, g, engine.OpN("Next"))
+	}
+	return c.apply(in, g, op)
 }
